@@ -133,6 +133,15 @@ def run_verus_unit(u, scratch, tier, extra_flags=()):
               and not d_["message"].startswith("aborting due to")]
     if vr.get("encountered-vir-error") or (not vr.get("success") and vr.get("errors", 0) == 0):
         msg = "; ".join(e["message"] for e in errors)[:1500] or p.stderr[-1500:]
+        # a closure contract re-attached by parameter list (its anchor text was gone) may have landed on a closure of a
+        # different type: retry once without that fallback (the contract is then simply lost, a soft loss)
+        refit = any("anchor text gone, contract attached" in w for it in built.report if isinstance(it, dict) for w in it.get("rewrites", []))
+        if refit and vx.CLOSURE_FALLBACK[0]:
+            vx.CLOSURE_FALLBACK[0] = False
+            try:
+                return run_verus_unit(u, scratch, tier, extra_flags)
+            finally:
+                vx.CLOSURE_FALLBACK[0] = True
         res["infra"] = f"verus could not process unit {u['name']} (unsupported construct / type error): {msg}"
         res["diagnostics"] = [e.get("rendered", e["message"]) for e in errors][:20]
         return res
